@@ -48,16 +48,32 @@ ASSUMPTIONS = [
     'what a request may remember between get_media() calls is what a handler PRODUCED - the deserialized object (documented: "the result will be cached and returned in subsequent calls") or the error the designated handler raised while consuming the stream; the outcome of the resolution itself (in particular a 415) is not something to remember: every call that has nothing deserialized to return resolves on the current mapping',
     'a Response adopts options.default_media_type as its content_type at its first rendering; the response histories read resp.content_type right before each call and take that as the content type being resolved',
     'a header without members is the empty string, i.e. one empty member (an invalid range)',
+    'the candidates of best_match / client_prefers are "an iterable over media types" (documentation and annotation): the answer depends on the items only, not on the kind of object that '
+    'delivers them (a one-shot iterator is a legitimate argument); for an unordered collection any candidate of maximal quality is right; a str is the iterable of its characters',
+    'Handlers(initial) takes a snapshot of the mapping it is given: afterwards the Handlers object and the caller\'s mapping (and every other Handlers object built from it) change independently',
+    'consumers of a handler mapping: what falcon itself resolves on a media Handlers object (request / response media, get_param_as_json, error documents, SSE json, multipart parts); '
+    'ws_options.media_handlers is a plain dict keyed by the WebSocket payload type (TEXT / BINARY) - there is no media type to match, so it is not a consumer of the rule',
 ]
 RULE = ('negotiation: Accept headers rendered from a generated AST of 1..5 media ranges (type/subtype/wildcards, 0..2 parameters, bare or quoted values with ; = space " \\ inside, '
         'q in 0..4 digits or invalid, random OWS and parameter-name case, designated-invalid members) x 1..4 candidates, checked through mediatypes.quality/best_match, '
         'req.client_accepts/client_prefers (WSGI and ASGI Request); '
+        'ARGUMENT OBJECTS: for 30% of the structured cases (15% of the junk) the same candidates are handed to best_match / client_prefers (both request classes) as tuple, generator expression, generator function, '
+        'iter(), map, filter, itertools.chain, reversed, dict, dict keys view, deque, a user-defined iterable / one-shot iterator / __getitem__-only sequence (answer = the documented one for the list), '
+        'set / frozenset (any candidate of maximal quality) and as a str (= the list of its characters); '
         'SIZE mode: headers with 0..40 members (half of the draws from the boundary list 0,1,2,3,7,8,9,15..20,31..34,39,40; 3% from 63..66,100,127..130 = the LRU sizes 64/128 of the code), '
         'filler members plus an adversarial family / q=0 exclusion / invalid member placed anywhere and half of the time among the last three, 0..40 parameters per range or candidate from 43 names (same boundary list), '
         'values of 1..4097 characters (boundary lengths 1,2,15..17,31..33,63..65,127..129,255..257,1000,4097; token or quoted with specials), 0..40 (rarely ..130) candidates, same oracles and model; '
         'plus a junk stream of arbitrary header strings (15% of the structured junk with 0..40 members); '
         'handlers: histories of 1..10 operations (set/delete/update/pop/popitem/clear/copy/|=/setdefault/LRU floods/resolve, a fifth via Request.get_media/Response.render_body) over media-type keys with wildcards and parameters, '
-        'exhaustive over a 19-operation alphabet on a 3-type universe (x 3 initial mappings) up to length 3 (quick) / 4 (thorough); '
+        'exhaustive over a 21-operation alphabet on a 3-type universe (x 3 initial mappings) up to length 3 (quick) / 4 (thorough); '
+        'CONSTRUCTION: every history that does not start from Handlers() builds its first object from a CALLER-OWNED mapping (dict, OrderedDict, dict subclass, defaultdict, UserDict, mappingproxy, ChainMap) which the history keeps: '
+        'operations fromarg (another Handlers from the same argument, as it is now), fromobj (Handlers(another Handlers)), argset / argdel / argpop / argclear / argupdate (the caller changes its mapping afterwards), switch; '
+        'a third of those random histories is construction-heavy; after every operation every object must hold what the same operations on its own plain dict give, the argument what the caller left in it, '
+        'and the final resolutions run on every object (fromarg and argset are letters of the exhaustive alphabet); '
+        'CONSUMERS: histories of 1..6 steps on one Handlers object shared by request options, response options, a WSGI app, an ASGI app and multipart parse options - mutations (set / del / update / |= / pop / clear / setdefault) '
+        'interleaved with consumptions by 13 consumers (Request.get_media WSGI / ASGI, Response.render_body WSGI / ASGI, the response rendering of falcon.App and the one inlined in falcon.asgi.App, get_param_as_json on both stacks directly and in a responder, '
+        'the default error serializer on both stacks under an Accept header naming the type, SSE json events, multipart body parts on both stacks); keys and content types are spelled in other letter case (APPLICATION/JSON, Application/JSON, application/Json), '
+        'with parameters, as type/* , */subtype and */*, with the canonical spelling present only 16% of the time; handlers say who they are; expected = the statement rule on the plain-dict shadow (or 415 / the built-in serializer where documented); '
         'ONE-OBJECT histories: a single falcon.Request / falcon.asgi.Request (get_media(), .media, get_media(default_when_empty=...)) or falcon.Response / falcon.asgi.Response (render_body(), resp.media = ...) called several times while '
         'between the calls the mapping is changed (item assignment, del, update, |= on options.media_handlers, pop, clear, setdefault), the Handlers object is replaced (a new one, a copy, a whole new options object), '
         'default_media_type or the content type is changed, or somebody else resolves on the same Handlers object; handlers return / raise MediaNotFoundError / raise another error; half of the random histories start from a mapping that '
@@ -148,6 +164,7 @@ def run(ctx):
     _handlers(ctx)
     _requests(ctx)
     _copy_protocol(ctx)
+    _consumers(ctx)
     if ctx.shard[0] == 0:
         _quoted_backslash_end(ctx)
 
@@ -451,6 +468,53 @@ def m_reply(obs):
     return {'range': 'err range', 'type': 'err type'}.get(obs[0], 'impl-' + obs[0])
 
 
+# ------------------------------------------------------------------ the ARGUMENT OBJECT dimension: what holds the candidates
+# best_match() is documented to take "an iterable over one or more Internet media types", client_prefers() an "iterable of str":
+# the answer is a function of the ITEMS, whatever object delivers them - a re-iterable collection, a one-shot iterator
+# (iter(x) is x: generator, iter(), map, filter, chain, a user-defined iterator), a mapping (its keys), the old __getitem__
+# sequence protocol, or an unordered set (then: any candidate of maximal quality).
+
+def _cand_kinds():
+    import collections
+    import itertools
+
+    class IterableObject:           # re-iterable, nothing but __iter__
+        def __init__(s, xs): s.xs = list(xs)
+        def __iter__(s): return iter(s.xs)
+
+    class IteratorObject:           # one-shot: iter(x) is x
+        def __init__(s, xs): s.it = iter(list(xs))
+        def __iter__(s): return s
+        def __next__(s): return next(s.it)
+
+    class GetItemSequence:          # the old sequence protocol: __getitem__ from 0 until IndexError
+        def __init__(s, xs): s.xs = list(xs)
+        def __getitem__(s, i): return s.xs[i]
+
+    def genfn(xs):
+        for x in xs:
+            yield x
+    ordered = {
+        'tuple': tuple,
+        'generator_expression': lambda xs: (x for x in xs),
+        'generator_function': genfn,
+        'iter': lambda xs: iter(list(xs)),
+        'map': lambda xs: map(str, xs),
+        'filter': lambda xs: filter(lambda x: True, xs),
+        'chain': lambda xs: itertools.chain(xs[:len(xs) // 2], xs[len(xs) // 2:]),
+        'reversed': lambda xs: reversed(xs[::-1]),
+        'dict': dict.fromkeys,
+        'dict_keys_view': lambda xs: dict.fromkeys(xs).keys(),
+        'deque': collections.deque,
+        'iterable_object': IterableObject,
+        'iterator_object': IteratorObject,
+        'getitem_sequence': GetItemSequence,
+    }
+    unordered = {'set': set, 'frozenset': frozenset}
+    return ordered, unordered
+
+
+
 # ------------------------------------------------------------------ first half: quality / best_match / client_accepts / client_prefers
 
 def _negotiation(ctx):
@@ -465,13 +529,58 @@ def _negotiation(ctx):
     O_B = 'best_match = first candidate of maximal quality, never one with quality 0 / no matching range; invalid input only raises the documented value errors'
     O_R = 'client_accepts / client_prefers agree with quality / best_match on the Accept header (invalid header: False / None)'
     O_J = 'arbitrary header strings: only a float in [0,1] / a candidate or "" / InvalidMediaType / InvalidMediaRange; best_match consistent with quality'
+    O_C = ('best_match / client_prefers answer by the ITEMS of the candidates argument, whatever iterable delivers them (tuple, generator, iterator, map, filter, chain, '
+           'dict / keys view, deque, user-defined iterable / iterator / __getitem__ sequence: the first candidate of maximal quality; set / frozenset: a candidate of maximal quality; '
+           'a str: what the list of its characters gives)')
+    ORDERED, UNORDERED = _cand_kinds()
+    KINDS = list(ORDERED) + list(UNORDERED) + ['str']
+
+    def containers(header, cstrs, want_idx, top_set, req, ci):
+        """The same candidates handed over in other kinds of object.  want_idx: index of the documented answer in cstrs, None (nothing acceptable) or
+        'error'; top_set: the candidates of maximal quality (for the unordered kinds); req: a Request carrying the header, or None."""
+        for kind in rnd.sample(KINDS, 2) if ci % 2 else [KINDS[(ci // 2) % len(KINDS)]]:
+            ctx.count('candidates_as_' + kind)
+            why = None
+            if kind == 'str':
+                # a str is an iterable of 1-character strings (the documentation asks for a collection of strings): same answer as for that list
+                arg = cstrs[0] if cstrs else ''
+                ref = observe(mt.best_match, list(arg), header)
+                got = observe(mt.best_match, arg, header)
+                if got != ref:
+                    why = f'best_match({arg!r}, header) = {got}, the list of its characters gives {ref}'
+                ctx.oracle(O_C, why is None, why, {'accept': header, 'candidates_object': 'str', 'candidates': arg})
+                continue
+            mk = ORDERED.get(kind) or UNORDERED[kind]
+            got = observe(mt.best_match, mk(cstrs), header)
+            if want_idx == 'error':
+                ok = got[0] in ('range', 'type')
+                exp = 'InvalidMediaType / InvalidMediaRange'
+            elif kind in UNORDERED:
+                exp = sorted(top_set) if top_set else ['']
+                ok = got[0] == 'ok' and got[1] in exp
+            else:
+                exp = '' if want_idx is None else cstrs[want_idx]
+                ok = got == ('ok', exp)
+            if not ok:
+                why = f'best_match(<{kind} of the candidates>, header) = {got}, the same candidates in a list give {exp!r}'
+            if ok and req is not None:
+                g = observe(req.client_prefers, mk(cstrs))
+                if want_idx in (None, 'error'):
+                    ok = g == ('ok', None)
+                elif kind in UNORDERED:
+                    ok = g[0] == 'ok' and g[1] in top_set
+                else:
+                    ok = g == ('ok', cstrs[want_idx])
+                if not ok:
+                    why = f'{type(req).__module__}.Request.client_prefers(<{kind} of the candidates>) = {g}, the same candidates in a list give {None if want_idx in (None, "error") else exp!r}'
+            ctx.oracle(O_C, why is None, why, {'accept': header, 'candidates_object': kind, 'candidates': cstrs})
 
     def mkreq(accept, asgi):
         if asgi:
             return falcon.asgi.Request(ft.create_scope(headers={'Accept': accept}), None)
         return falcon.Request(ft.create_environ(headers={'Accept': accept}))
 
-    def exact_case(ranges, cands, mode, ci, glue_p=0.5, budget=None):
+    def exact_case(ranges, cands, mode, ci, glue_p=0.5, budget=None, cont_p=0.3):
         """One structured case: the oracle answers from the AST, the code and the model get the rendered strings.
         budget: at most this many header characters are sent to the model for the case (every candidate re-parses the header there);
         the oracle always judges every candidate."""
@@ -527,6 +636,18 @@ def _negotiation(ctx):
                     why = f'client_prefers = {g}, expected {expp!r}'
                 ctx.oracle(O_R, why is None, why, dict(case, asgi=asgi))
                 ctx.count('request_asgi' if asgi else 'request_wsgi')
+        # the candidates in other kinds of object
+        if rnd.random() < cont_p:
+            qs_ = [spec_quality(c, ranges) for c in cands]
+            top = set()
+            if wantb not in (None, 'error'):
+                top = {cs for cs, q in zip(cstrs, qs_) if q == qs_[wantb]}
+            creq = None
+            if rnd.random() < 0.3:
+                creq = mkreq(header, rnd.random() < 0.5)
+                if creq.accept != header:
+                    creq = None
+            containers(header, cstrs, wantb, top, creq, ci)
         ctx.seen(('x', header, tuple(cstrs)), nontriv)
         if ci < 3:
             ctx.sample({'accept': header if len(header) < 400 else header[:400] + '...', 'candidates': cstrs[:6], 'best': gotb})
@@ -647,6 +768,14 @@ def _negotiation(ctx):
                 if g != ('ok', exp):
                     why = why or f'client_prefers = {g}, best_match = {gb}'
         ctx.oracle(O_J, why is None, why, case)
+        if why is None and rnd.random() < 0.15:
+            # the same candidates in another kind of object (judged through the list answer, which O_J has just tied to the qualities)
+            if gb[0] == 'ok':
+                vals = [q[1] for q in qs]
+                top = {c for c, v in zip(cstrs, vals) if gb[1] and v == max(vals)}
+                containers(header, cstrs, cstrs.index(gb[1]) if gb[1] else None, top, None, ci)
+            else:
+                containers(header, cstrs, 'error', set(), None, ci)
         ctx.count('junk_' + ('modelled' if safe else 'oracle_only'))
         ctx.seen(('j', header, tuple(cstrs)), any(q[0] == 'ok' and q[1] > 0 for q in qs))
     sess.finish()
@@ -714,8 +843,36 @@ def _handlers(ctx):
 
     ids = itertools.count(1)
 
-    def run_history(init, ops, finals, meta, exhaustive=False):
-        """init: None (Handlers()) or list of keys; ops: list of tuples; finals: content types resolved at the end."""
+    import collections
+    import types
+
+    class MyDict(dict):
+        pass
+
+    def wrap_arg(kind, d):
+        """(the object handed to Handlers(...), the mutable mapping the caller keeps and may change afterwards)"""
+        if kind == 'dict':
+            return d, d
+        if kind == 'OrderedDict':
+            o = collections.OrderedDict(d); return o, o
+        if kind == 'dict_subclass':
+            o = MyDict(d); return o, o
+        if kind == 'defaultdict':
+            o = collections.defaultdict(lambda: None, d); return o, o
+        if kind == 'UserDict':
+            o = collections.UserDict(d); return o, o
+        if kind == 'mappingproxy':
+            return types.MappingProxyType(d), d          # a read-only view: the caller changes the dict behind it
+        if kind == 'ChainMap':
+            return collections.ChainMap(d), d
+        raise ValueError(kind)
+    ARG_KINDS = ['dict', 'dict', 'dict', 'OrderedDict', 'dict_subclass', 'defaultdict', 'UserDict', 'mappingproxy', 'ChainMap']
+
+    def run_history(init, ops, finals, meta, exhaustive=False, arg_kind='dict'):
+        """init: None (Handlers()) or list of keys (the first object is built from a caller-owned mapping of kind `arg_kind` holding them);
+        ops: list of tuples; finals: content types resolved at the end (on every object)."""
+        ARG = ARGD = None
+        arg_shadow = None
         hid = {}          # id(handler object) -> (small id, object)
         reg = {}          # small id -> handler object
         objs, shadows = [], []
@@ -738,9 +895,12 @@ def _handlers(ctx):
             d = {k: H(next(ids)) for k in init}
             for v in d.values():
                 hid[id(v)] = (v.hid, v); reg[v.hid] = v
-            h = Handlers(d)
-            shadow = {k: v.hid for k, v in d.items()}
+            ARG, ARGD = wrap_arg(arg_kind, d)
+            h = Handlers(ARG)
+            arg_shadow = {k: v.hid for k, v in d.items()}
+            shadow = dict(arg_shadow)
             ok0 = True
+            ctx.count('handlers_built_from_' + arg_kind)
             kv = ','.join(f'{hexs(k)}:{v}' for k, v in shadow.items()) or '-'
             sess.op('new ' + kv, 'ok ' + (','.join(f'{hexs(k)}:{ident(v)}' for k, v in h.items()) or '-'))
         objs.append(h); shadows.append(shadow)
@@ -884,6 +1044,39 @@ def _handlers(ctx):
                         sess.op(f'copy {cur}', 'ok ' + mapping(len(objs) - 1))
                     if op[1]:
                         cur = len(objs) - 1     # continue the history on the copy; the original is re-checked at the end
+                elif name == 'fromarg':
+                    # a SECOND (third ...) Handlers object built from the same caller-owned argument, as it is now
+                    if ARG is None:
+                        continue
+                    c = Handlers(ARG)
+                    objs.append(c); shadows.append(dict(arg_shadow))
+                    sess.op('new ' + (','.join(f'{hexs(k_)}:{v_}' for k_, v_ in arg_shadow.items()) or '-'), 'ok ' + mapping(len(objs) - 1))
+                    if op[1]:
+                        cur = len(objs) - 1
+                elif name == 'fromobj':
+                    # Handlers(another Handlers object)
+                    src = op[1] % len(objs)
+                    c = Handlers(objs[src])
+                    objs.append(c); shadows.append(dict(shadows[src]))
+                    sess.op('new ' + (','.join(f'{hexs(k_)}:{v_}' for k_, v_ in shadows[src].items()) or '-'), 'ok ' + mapping(len(objs) - 1))
+                    if op[2]:
+                        cur = len(objs) - 1
+                elif name in ('argset', 'argdel', 'argpop', 'argclear', 'argupdate'):
+                    # the CALLER changes the mapping it once gave to Handlers(...): none of the objects built from it is concerned
+                    if ARG is None:
+                        continue
+                    if name == 'argset':
+                        x = newh(); ARGD[op[1]] = x; arg_shadow[op[1]] = x.hid
+                    elif name == 'argdel':
+                        if op[1] in arg_shadow:
+                            del ARGD[op[1]]; del arg_shadow[op[1]]
+                    elif name == 'argpop':
+                        ARGD.pop(op[1], None); arg_shadow.pop(op[1], None)
+                    elif name == 'argclear':
+                        ARGD.clear(); arg_shadow.clear()
+                    else:
+                        d2 = {k_: newh() for k_ in op[1]}
+                        ARGD.update(d2); arg_shadow.update({k_: v_.hid for k_, v_ in d2.items()})
                 elif name == 'switch':
                     cur = op[1] % len(objs)
                     continue
@@ -905,13 +1098,17 @@ def _handlers(ctx):
             for i in range(len(objs)):
                 if list(objs[i].items()) != [(k, reg.get(v)) for k, v in shadows[i].items()]:
                     why = why or f'after {name} object {i} holds {[(k, ident(v)) for k, v in objs[i].items()]}, the same operations on a dict give {shadows[i]}'
+            if ARG is not None and [(k, ident(v)) for k, v in ARGD.items()] != list(arg_shadow.items()):
+                why = why or (f'after {name} the mapping the caller passed to Handlers(...) holds {[(k, ident(v)) for k, v in ARGD.items()]}, '
+                              f'the caller left it as {arg_shadow} (operations on a Handlers object changed the argument it was built from)')
             if why:
                 break
         if why is None:
             for i in range(len(objs)):
                 for ct in finals:
                     resolve(i, ct, 'application/json', None, 'direct')
-        ctx.oracle(O_H, why is None, why, {'initial': 'Handlers()' if init is None else list(init), 'ops': [list(map(_plain, o)) for o in ops], 'final_resolutions': list(finals)})
+        ctx.oracle(O_H, why is None, why, {'initial': 'Handlers()' if init is None else f'Handlers(<{arg_kind} with the keys {list(init)}>)',
+                                           'ops': [list(map(_plain, o)) for o in ops], 'final_resolutions (on every object)': list(finals)})
         ctx.seen(('h', str(init), str(ops)), nontriv)
 
     # ---- exhaustive small histories over a 3-type universe
@@ -921,6 +1118,7 @@ def _handlers(ctx):
         by_str[u] = Rng(m, s, {})
     ALPHA = ([('set', k) for k in U] + [('del', k) for k in U] + [('ior', (k,)) for k in U] +
              [('pop', 'text/plain'), ('setdefault', 'text/plain'), ('update', ('text/plain', 'application/json')), ('clear',), ('copy', True), ('popitem',)] +
+             [('fromarg', True), ('argset', 'text/plain')] +
              [('resolve', ct, 'application/json', None, 'direct') for ct in ('application/json', 'text/plain', 'text/html', None)])
     maxlen = 3 if ctx.quick else 4
     allh = []
@@ -938,9 +1136,32 @@ def _handlers(ctx):
     for ci in range(ctx.n(16000, 100000)):
         k = rnd.random()
         init = None if k < 0.25 else rnd.sample(KSTR, rnd.randint(0, 4))
+        # a quarter of the histories that start from a caller-owned mapping are about CONSTRUCTION: more objects built from the same argument /
+        # from each other, the caller changing its mapping afterwards, the history moving between the objects
+        constr = init is not None and rnd.random() < 0.33
+        arg_kind = rnd.choice(ARG_KINDS)
         ops = []
         for _ in range(rnd.randint(1, 10)):
             r = rnd.random()
+            if constr and r < 0.45:
+                r2 = rnd.random()
+                if r2 < 0.28:
+                    ops.append(('fromarg', rnd.random() < 0.6))
+                elif r2 < 0.38:
+                    ops.append(('fromobj', rnd.randint(0, 3), rnd.random() < 0.6))
+                elif r2 < 0.52:
+                    ops.append(('argset', rnd.choice(KSTR)))
+                elif r2 < 0.58:
+                    ops.append(('argdel', rnd.choice(KSTR)))
+                elif r2 < 0.63:
+                    ops.append(('argpop', rnd.choice(KSTR)))
+                elif r2 < 0.66:
+                    ops.append(('argclear',))
+                elif r2 < 0.72:
+                    ops.append(('argupdate', tuple(rnd.sample(KSTR, rnd.randint(0, 3)))))
+                else:
+                    ops.append(('switch', rnd.randint(0, 3)))
+                continue
             if r < 0.36:
                 ct = rnd.choice(CSTR + KSTR + [None, '*/*'])
                 via = rnd.choice(['direct', 'direct', 'direct', 'direct', 'request', 'response'])
@@ -971,8 +1192,8 @@ def _handlers(ctx):
             else:
                 ops.append(('flood', 'application/json'))
         finals = rnd.sample(CSTR + KSTR, 3) + [None]
-        run_history(init, ops, finals, {'mode': 'random'})
-        ctx.count('history_random')
+        run_history(init, ops, finals, {'mode': 'random'}, arg_kind=arg_kind)
+        ctx.count('history_random_construction' if constr else 'history_random')
         if ci < 2:
             ctx.sample({'initial': init, 'ops': [list(map(_plain, o)) for o in ops]})
     sess.finish()
@@ -1413,6 +1634,403 @@ def _requests(ctx):
     sess.finish()
 
 
+# ------------------------------------------------------------------ fourth part: every CONSUMER of a handler mapping inside falcon
+
+def _consumers(ctx):
+    """Every place in falcon that looks a handler up in a media Handlers mapping must resolve through the SAME matching rule:
+    Request.get_media / .media (WSGI, ASGI), Response.render_body (WSGI, ASGI), the response rendering inlined in falcon.asgi.App,
+    the response rendering of falcon.App, Request.get_param_as_json (application/json), the default error serializer (the type the
+    client prefers), server-sent events with a json payload (application/json), multipart body parts (MultipartParseOptions.media_handlers,
+    default text/plain).  The mapping is changed between the requests (item assignment, del, update, |=, pop, clear, setdefault), and the
+    handler in charge is registered under NON-CANONICAL keys - other letter case of type/subtype, parameters, wildcards - with the
+    canonical spelling absent or present.  (WebSocket media is not a consumer: ws_options.media_handlers is a plain dict keyed by the
+    payload type, there is no media type to match.)"""
+    import asyncio
+    import io
+    import itertools
+    import json
+    import falcon
+    import falcon.asgi
+    import falcon.testing as ft
+    from falcon import media
+    from falcon.media import Handlers, BaseHandler
+    from falcon.request import RequestOptions
+    from falcon.response import ResponseOptions
+    from runner import Hang
+    rnd = ctx.rng
+    name = ('every consumer of a handler mapping (get_media, render_body, the App response paths, get_param_as_json, the default error serializer, SSE json, multipart parts) '
+            'uses the handler the CURRENT mapping designates by the matching rule for the type at hand (keys in other case / with parameters / wildcards included), '
+            'or its documented fallback (415; the built-in JSON / XML serializer) when the mapping designates none')
+    LOG = []
+    ids = itertools.count(1)
+    loop = asyncio.new_event_loop()
+
+    class Media:
+        def __init__(s, hid): s.hid = hid
+
+    class TH(BaseHandler):
+        """a handler that says who it is"""
+        def __init__(s, hid): s.hid = hid
+        def serialize(s, m, content_type=None):
+            LOG.append(s.hid); return b'H%d|' % s.hid + json.dumps(m).encode()
+        def deserialize(s, stream, content_type, content_length):
+            LOG.append(s.hid); stream.read(); return Media(s.hid)
+        async def deserialize_async(s, stream, content_type, content_length):
+            LOG.append(s.hid); await stream.read(); return Media(s.hid)
+
+    def spell(r, plain=False):
+        """one of the spellings of a media type / range: letter case of type and subtype and of the parameter names, spacing"""
+        m, sb = r.main, r.sub
+        k = 1.0 if plain else rnd.random()
+        if k < 0.2: m, sb = m.upper(), sb.upper()
+        elif k < 0.35: m, sb = m.title(), sb.upper()
+        elif k < 0.45: sb = sb.title()
+        out = f'{m}/{sb}'
+        for n, v in r.params.items():
+            out += (rnd.choice(['; ', ';', ' ; ']) if not plain else '; ') + (rnd.choice([n, n, n.upper()]) if not plain else n) + '=' + v
+        return out
+
+    CONSUMERS = ['get_media_wsgi', 'get_media_asgi', 'render_body_wsgi', 'render_body_asgi', 'app_response_wsgi', 'app_response_asgi',
+                 'param_json_wsgi', 'param_json_asgi', 'error_wsgi', 'error_asgi', 'sse_json', 'multipart_wsgi', 'multipart_asgi']
+    JSON_FIXED = ('param_json_wsgi', 'param_json_asgi', 'sse_json')
+    BODY = b'{"a": 1}'
+
+    def run_asgi(app, scope, body):
+        out = {'body': b'', 'status': None, 'headers': {}}
+        evs = [{'type': 'http.request', 'body': body, 'more_body': False}]
+
+        async def go():
+            never = asyncio.get_running_loop().create_future()
+
+            async def receive():
+                if evs: return evs.pop(0)
+                await never
+
+            async def send(m):
+                if m['type'] == 'http.response.start':
+                    out['status'] = m['status']; out['headers'] = {k.decode().lower(): v.decode() for k, v in m['headers']}
+                elif m['type'] == 'http.response.body':
+                    out['body'] += m.get('body', b'')
+            await asyncio.wait_for(app(scope, receive, send), 10)
+        loop.run_until_complete(go())
+        return out
+
+    def run_wsgi(app, env):
+        st = []
+        body = b''.join(app(env, lambda sline, h, e=None: st.append((sline, h))))
+        return {'status': int(st[0][0][:3]), 'headers': {k.lower(): v for k, v in st[0][1]}, 'body': body}
+
+    for ci in range(ctx.n(1500, 14000)):
+        # ---- the universe of this case: a target type and the keys that (may) designate a handler for it
+        consumer = rnd.choice(CONSUMERS)
+        if consumer in JSON_FIXED or consumer.startswith('error') or rnd.random() < 0.5:
+            t0 = Rng('application', 'json', {})
+        else:
+            t0 = Rng(*gen_type(rnd, 0.0), {})
+        by_str = {}
+
+        def reg(r, plain=False):
+            st_ = spell(r, plain)
+            by_str[st_] = r
+            return st_
+        for fixed in (('application', 'json'), ('text', 'xml'), ('application', 'xml'), ('text', 'plain')):
+            by_str['/'.join(fixed)] = Rng(fixed[0], fixed[1], {})
+
+        def gen_key():
+            k = rnd.random()
+            if k < 0.16: return reg(Rng(t0.main, t0.sub, {}), plain=True)                          # the canonical spelling
+            if k < 0.36: return reg(Rng(t0.main, t0.sub, {}))                                       # other letter case
+            if k < 0.60:                                                                           # parameters (and maybe another case)
+                ps = {rnd.choice(PNAMES): rnd.choice(PVALS_TOKEN)}
+                if rnd.random() < 0.25: ps[rnd.choice(PNAMES)] = rnd.choice(PVALS_TOKEN)
+                return reg(Rng(t0.main, t0.sub, ps))
+            if k < 0.74: return reg(Rng(t0.main, '*', {}))
+            if k < 0.80: return '*/*' if not by_str.setdefault('*/*', Rng('*', '*', {})) else '*/*'
+            if k < 0.86: return reg(Rng('*', t0.sub, {}))
+            return reg(Rng(*gen_type(rnd, 0.0), gen_params(rnd, False) if rnd.random() < 0.3 else {}))   # something else
+        by_str['*/*'] = Rng('*', '*', {})
+
+        def gen_ct():
+            k = rnd.random()
+            if k < 0.45: return reg(Rng(t0.main, t0.sub, {}), plain=True)
+            if k < 0.60: return reg(Rng(t0.main, t0.sub, {}))
+            if k < 0.78: return reg(Rng(t0.main, t0.sub, {rnd.choice(PNAMES): rnd.choice(PVALS_TOKEN)}))
+            if k < 0.86: return None
+            if k < 0.90: return '*/*'
+            return reg(Rng(*gen_type(rnd, 0.0), {}))
+
+        def designate(shadow, ct, default):
+            if ct is None or ct == '' or ct == '*/*':
+                ct = default
+            if ct in shadow:
+                return shadow[ct]
+            t = by_str[ct]
+            best, bq = None, 0.0
+            for k_ in shadow:
+                q = spec_quality(by_str[k_], [t])
+                if q != 'error' and q > bq:
+                    best, bq = k_, q
+            return None if best is None else shadow[best]
+
+        hh = None
+        shadow = {}
+        reg_handlers = {}
+
+        def newh():
+            x = TH(next(ids)); reg_handlers[x.hid] = x; return x
+        init = {}
+        for _ in range(rnd.choice([0, 1, 1, 1, 2, 3])):
+            init[gen_key()] = newh()
+        hh = Handlers(init)
+        shadow = {k_: v_.hid for k_, v_ in init.items()}
+        default = reg(Rng(t0.main, t0.sub, {}), plain=True) if rnd.random() < 0.5 else rnd.choice(['application/json', 'text/plain'])
+        # the vehicles share the one Handlers object (as an app that gives requests and responses the same mapping does)
+        vehicles = {}
+
+        def wsgi_app():
+            if 'wsgi' not in vehicles:
+                app = falcon.App()
+                app.req_options.media_handlers = hh; app.resp_options.media_handlers = hh
+                box = {}
+
+                class R:
+                    def on_post(self, req, resp):
+                        if box['mode'] == 'error':
+                            raise falcon.HTTPBadRequest(title='t', description='d')
+                        if box['mode'] == 'param':
+                            box['out'] = req.get_param_as_json('p')
+                        else:
+                            resp.media = {'a': 1}
+                            resp.content_type = box['ct']
+                app.add_route('/', R())
+                vehicles['wsgi'] = (app, box)
+            return vehicles['wsgi']
+
+        def asgi_app():
+            if 'asgi' not in vehicles:
+                app = falcon.asgi.App()
+                app.req_options.media_handlers = hh; app.resp_options.media_handlers = hh
+                box = {}
+
+                class R:
+                    async def on_post(self, req, resp):
+                        if box['mode'] == 'error':
+                            raise falcon.HTTPBadRequest(title='t', description='d')
+                        if box['mode'] == 'param':
+                            box['out'] = req.get_param_as_json('p')
+                        elif box['mode'] == 'sse':
+                            async def emitter():
+                                yield falcon.asgi.SSEvent(json={'a': 1})
+                            resp.sse = emitter()
+                        else:
+                            resp.media = {'a': 1}
+                            resp.content_type = box['ct']
+                app.add_route('/', R())
+                vehicles['asgi'] = (app, box)
+            return vehicles['asgi']
+
+        def consume(cons, ct):
+            """-> (observation, expected observation); both ('h', id) | ('415',) | ('builtin',) | ..."""
+            del LOG[:]
+            asgi = cons.endswith('asgi') or cons == 'sse_json'
+            if cons.startswith('get_media'):
+                opts = RequestOptions(); opts.media_handlers = hh; opts.default_media_type = default
+                hdrs = {} if ct is None else {'Content-Type': ct}
+                if asgi:
+                    req = ft.create_asgi_req(options=opts, method='POST', headers=hdrs, body=BODY)
+                else:
+                    env = ft.create_environ(method='POST', headers=hdrs, body=BODY)
+                    if ct is None: env.pop('CONTENT_TYPE', None)
+                    req = falcon.Request(env, options=opts)
+                if req.content_type != ct:
+                    req.content_type = ct
+                want = designate(shadow, ct, default)
+                try:
+                    got = loop.run_until_complete(asyncio.wait_for(req.get_media(), 10)) if asgi else req.get_media()
+                    obs = ('h', got.hid) if isinstance(got, Media) else ('other', repr(got)[:60])
+                except falcon.HTTPUnsupportedMediaType:
+                    obs = ('415',)
+                return obs, (('h', want) if want else ('415',))
+            if cons.startswith('render_body'):
+                opts = ResponseOptions(); opts.media_handlers = hh; opts.default_media_type = default
+                resp = (falcon.asgi.Response if asgi else falcon.Response)(options=opts)
+                resp.media = {'a': 1}
+                if ct is not None:
+                    resp.content_type = ct
+                want = designate(shadow, resp.content_type, default)
+                try:
+                    got = loop.run_until_complete(asyncio.wait_for(resp.render_body(), 10)) if asgi else resp.render_body()
+                    obs = ('h', int(got[1:got.index(b'|')])) if got[:1] == b'H' else ('other', repr(got)[:60])
+                except falcon.HTTPUnsupportedMediaType:
+                    obs = ('415',)
+                return obs, (('h', want) if want else ('415',))
+            if cons.startswith('app_response'):
+                app, box = asgi_app() if asgi else wsgi_app()
+                app.resp_options.default_media_type = default
+                box['mode'] = 'resp'; box['ct'] = ct
+                want = designate(shadow, ct, default)
+                if asgi:
+                    out = run_asgi(app, ft.create_scope(method='POST', path='/', headers={'Accept': 'x-nothing/x-at-all'}), b'')
+                else:
+                    out = run_wsgi(app, ft.create_environ(method='POST', path='/', headers={'Accept': 'x-nothing/x-at-all'}))
+                if out['status'] == 200 and out['body'][:1] == b'H':
+                    obs = ('h', int(out['body'][1:out['body'].index(b'|')]))
+                elif out['status'] == 415:
+                    obs = ('415',)
+                else:
+                    obs = ('other', out['status'], out['body'][:40])
+                return obs, (('h', want) if want else ('415',))
+            if cons.startswith('param_json'):
+                want = designate(shadow, 'application/json', 'application/json')
+                qs = 'p=%7B%22a%22%3A%201%7D'
+                via_app = rnd.random() < 0.5
+                if via_app:
+                    app, box = asgi_app() if asgi else wsgi_app()
+                    box['mode'] = 'param'; box.pop('out', None)
+                    if asgi:
+                        out = run_asgi(app, ft.create_scope(method='POST', path='/', query_string=qs), b'')
+                    else:
+                        out = run_wsgi(app, ft.create_environ(method='POST', path='/', query_string=qs))
+                    got = box.get('out', ('status', out['status']))
+                else:
+                    opts = RequestOptions(); opts.media_handlers = hh
+                    req = (ft.create_asgi_req(options=opts, query_string=qs) if asgi else falcon.Request(ft.create_environ(query_string=qs), options=opts))
+                    got = req.get_param_as_json('p')
+                obs = ('h', got.hid) if isinstance(got, Media) else ('builtin',) if got == {'a': 1} else ('other', repr(got)[:60])
+                return obs, (('h', want) if want else ('builtin',))
+            if cons.startswith('error'):
+                app, box = asgi_app() if asgi else wsgi_app()
+                app.resp_options.default_media_type = 'application/json'
+                box['mode'] = 'error'
+                # what the client accepts: the content type at hand (maybe weighted against something else)
+                act = ct if ct is not None else 'application/json'
+                accept = act
+                ranges = [by_str[act]]
+                k = rnd.random()
+                if k < 0.15:
+                    accept += ';q=0.5, text/x-unknown'; t_ = by_str[act]; ranges = [Rng(t_.main, t_.sub, t_.params, q=0.5, qstr='0.5'), Rng('text', 'x-unknown', {})]
+                elif k < 0.3:
+                    accept += ', text/x-unknown;q=0.1'; ranges = ranges + [Rng('text', 'x-unknown', {}, q=0.1, qstr='0.1')]
+                if asgi:
+                    out = run_asgi(app, ft.create_scope(method='POST', path='/', headers={'Accept': accept}), b'')
+                else:
+                    out = run_wsgi(app, ft.create_environ(method='POST', path='/', headers={'Accept': accept}))
+                rct = out['headers'].get('content-type')
+                tagged = out['body'][:1] == b'H'
+                obs = ('h', int(out['body'][1:out['body'].index(b'|')])) if tagged else ('builtin', rct) if out['body'] else ('nobody',)
+                if out['status'] != 400:
+                    return ('other', out['status'], out['body'][:40]), ('a 400 response',)
+                # the documented negotiation: JSON and the two XML types first, then the registered types (the two form types are not offered);
+                # nothing acceptable: JSON / XML when the client asks for a +json / +xml type, else no body
+                predefined = ['application/json', 'text/xml', 'application/xml']
+                offered = predefined + [k_ for k_ in shadow if k_ not in predefined and k_ not in ('multipart/form-data', 'application/x-www-form-urlencoded')]
+                bi = spec_best([by_str[o] for o in offered], ranges)
+                pref = offered[bi] if bi is not None else 'application/json' if '+json' in accept.lower() else 'application/xml' if '+xml' in accept.lower() else None
+                if pref is None:
+                    return obs, ('nobody',)
+                want = designate(shadow, pref, 'application/json')
+                if want:
+                    if obs[0] == 'h' and rct != pref:
+                        return ('h', obs[1], 'Content-Type ' + repr(rct)), ('h', want, 'Content-Type ' + repr(pref))
+                    return obs, ('h', want)
+                return obs, ('builtin', pref)
+            if cons == 'sse_json':
+                app, box = asgi_app()
+                box['mode'] = 'sse'
+                want = designate(shadow, 'application/json', 'application/json')
+                out = run_asgi(app, ft.create_scope(method='POST', path='/'), b'')
+                b = out['body']
+                obs = ('h', int(b[7:b.index(b'|')])) if b[:7] == b'data: H' else ('builtin',) if b.startswith(b'data: {"a"') else ('other', b[:40])
+                return obs, (('h', want) if want else ('builtin',))
+            if cons.startswith('multipart'):
+                po = media.multipart.MultipartParseOptions()
+                po.media_handlers = hh
+                mh = media.MultipartFormHandler(parse_options=po)
+                opts = RequestOptions(); opts.media_handlers[falcon.MEDIA_MULTIPART] = mh
+                part = b'--BND\r\nContent-Disposition: form-data; name="f"\r\n' + (b'' if ct is None else b'Content-Type: ' + ct.encode() + b'\r\n') + b'\r\n' + BODY + b'\r\n--BND--\r\n'
+                hdrs = {'Content-Type': 'multipart/form-data; boundary=BND'}
+                want = designate(shadow, ct, 'text/plain')
+                try:
+                    if asgi:
+                        req = ft.create_asgi_req(options=opts, method='POST', headers=hdrs, body=part)
+
+                        async def parts():
+                            form = await req.get_media()
+                            async for p_ in form:
+                                return await p_.get_media()
+                        got = loop.run_until_complete(asyncio.wait_for(parts(), 10))
+                    else:
+                        req = falcon.Request(ft.create_environ(method='POST', headers=hdrs, body=part), options=opts)
+                        got = None
+                        for p_ in req.get_media():
+                            got = p_.get_media()
+                            break
+                    obs = ('h', got.hid) if isinstance(got, Media) else ('other', repr(got)[:60])
+                except falcon.HTTPUnsupportedMediaType:
+                    obs = ('415',)
+                return obs, (('h', want) if want else ('415',))
+            raise ValueError(cons)
+
+        # ---- the history: mutations of the mapping, consumptions in between (the case's consumer and now and then another one)
+        steps = []
+        why = None
+        nontriv = False
+        consumed = 0
+        n_steps = rnd.randint(1, 6)
+        for si in range(n_steps + 1):
+            last = si == n_steps
+            r = rnd.random()
+            try:
+                with alarm(5):
+                    if last or r < 0.45:
+                        cons = consumer if rnd.random() < 0.75 else rnd.choice(CONSUMERS)
+                        ct = gen_ct()
+                        if cons in JSON_FIXED:
+                            ct = 'application/json'
+                        steps.append(['consume', cons, ct, 'default=' + default])
+                        obs, exp = consume(cons, ct)
+                        ctx.count('consumer_' + cons)
+                        ctx.count('consumer_outcome_' + exp[0])
+                        if exp[0] == 'h':
+                            eff = default if ct in (None, '*/*') else ct
+                            if eff not in shadow:
+                                nontriv = True; ctx.count('consumer_designated_by_noncanonical_key')
+                        if obs != exp:
+                            why = (f'step {len(steps)}: {cons} for {ct!r} (default {default!r}) was served by {obs}, '
+                                   f'the current mapping {shadow} designates {exp}')
+                        consumed += 1
+                    elif r < 0.62:
+                        k_ = gen_key(); x = newh(); hh[k_] = x; shadow[k_] = x.hid; steps.append(['set', k_, x.hid])
+                    elif r < 0.72:
+                        if shadow:
+                            k_ = rnd.choice(list(shadow)); del hh[k_]; del shadow[k_]; steps.append(['del', k_])
+                    elif r < 0.80:
+                        d_ = {gen_key(): newh() for _ in range(rnd.randint(1, 2))}
+                        hh.update(d_); shadow.update({k_: v_.hid for k_, v_ in d_.items()}); steps.append(['update', {k_: v_.hid for k_, v_ in d_.items()}])
+                    elif r < 0.87:
+                        d_ = {gen_key(): newh() for _ in range(rnd.randint(1, 2))}
+                        hh |= d_; shadow.update({k_: v_.hid for k_, v_ in d_.items()}); steps.append(['|=', {k_: v_.hid for k_, v_ in d_.items()}])
+                    elif r < 0.93:
+                        if shadow:
+                            k_ = rnd.choice(list(shadow)); hh.pop(k_); shadow.pop(k_); steps.append(['pop', k_])
+                    elif r < 0.96:
+                        hh.clear(); shadow.clear(); steps.append(['clear'])
+                    else:
+                        k_ = gen_key(); x = newh(); hh.setdefault(k_, x); shadow.setdefault(k_, x.hid); steps.append(['setdefault', k_, x.hid])
+            except Hang:
+                why = why or f'step {len(steps)} did not return'
+            except Exception as e:  # noqa
+                why = why or f'step {len(steps)} {steps[-1] if steps else ""} raised {type(e).__name__}: {e}'
+            if why:
+                break
+        case = {'initial_mapping': {k_: v_.hid for k_, v_ in init.items()}, 'steps': steps}
+        ctx.oracle(name, why is None, why, case)
+        ctx.seen(('consumer', str(case)), nontriv)
+        if ci < 2:
+            ctx.sample(case)
+    loop.close()
+
+
 def _plain(x):
     return list(x) if isinstance(x, tuple) else x
 
@@ -1425,7 +2043,9 @@ LEVEL_TEXT = ('Machine-checked proofs (Lean 4): (1) the media Handlers resolver,
               '(2) for the transcription of falcon.util.mediatypes (parse_header with both paths, media type / range parsing, match_score, quality, best_match): quality is the q of a lexicographically '
               'maximal (type, subtype, exact-params, #params, q) match or 0 when nothing matches, best_match is the first candidate of maximal quality and never one of quality 0, and malformed input only yields the two value errors. '
               'Both models are tied to the real code on every run by differential correspondences (same inputs / operation lines to falcon.util.mediatypes, falcon.media.Handlers, falcon.Request / falcon.asgi.Request and the compiled models), '
-              'and an independent oracle computed from the generated structure of the header (not from the parser) and from a plain-dict shadow of the mapping decides failing inputs.')
+              'and an independent oracle computed from the generated structure of the header (not from the parser) and from a plain-dict shadow of the mapping decides failing inputs. '
+              'The oracle also spans the kind of object the candidates arrive in (one-shot iterators, mappings, sets ...), the construction of Handlers objects from caller-owned mappings (aliasing), '
+              'and every place inside falcon that consumes a handler mapping (13 consumers incl. get_param_as_json, the error serializer, SSE and multipart parts) under non-canonical key spellings.')
 LEVEL_NOTE = ('Trusted: Lean kernel + standard axioms; the correspondence harness and oracles; float() on q values; lru_cache behaving as a sub-memo. '
               'Case-sensitivity of types and splitting at quoted commas are taken as documented behaviour (see assumptions).')
 TECHNIQUE = 'Lean 4 invariant proof (memo coherence over histories) + order-theoretic lemmas on the matching rule + differential correspondence model vs. real code + structure-derived oracle'
